@@ -11,6 +11,7 @@ import (
 	"strconv"
 	"strings"
 	"sync"
+	"sync/atomic"
 	"time"
 
 	tally "github.com/uber-go/tally/v4"
@@ -23,12 +24,13 @@ import (
 // (M3ObsTrace.tla), with what was reported.  Names and tags are arbitrary byte strings (hex in the trace).
 
 type sinkCollector struct {
-	s    *udpSink
-	mu   sync.Mutex
-	got  [][]byte
-	stop chan struct{}
-	sync chan chan struct{}
-	done chan struct{}
+	s     *udpSink
+	mu    sync.Mutex
+	got   [][]byte
+	total int // datagrams seen since creation
+	stop  chan struct{}
+	sync  chan chan struct{}
+	done  chan struct{}
 }
 
 // newCollector starts a goroutine that keeps emptying the sink's socket queue (so that it cannot overflow).
@@ -43,7 +45,9 @@ func newCollector() *sinkCollector {
 				return
 			case ack := <-c.sync:
 				c.mu.Lock()
-				c.got = append(c.got, c.s.drain(0)...)
+				more := c.s.drain(0)
+				c.got = append(c.got, more...)
+				c.total += len(more)
 				c.mu.Unlock()
 				close(ack)
 				continue
@@ -53,6 +57,7 @@ func newCollector() *sinkCollector {
 			if len(ds) > 0 {
 				c.mu.Lock()
 				c.got = append(c.got, ds...)
+				c.total += len(ds)
 				c.mu.Unlock()
 			}
 		}
@@ -172,6 +177,14 @@ func init() {
 			var mu sync.Mutex
 			var ev []M
 			log := func(m M) { mu.Lock(); ev = append(ev, m); mu.Unlock() }
+			var emitted atomic.Int64
+			tally.VerifSetHook(nil, func(point string, a, b int64, str string) {
+				if point == "m3p_emit" {
+					// sender side: the batching goroutine has handed a batch to the transport
+					emitted.Add(1)
+					log(M{"e": "emitted", "n": int(a)})
+				}
+			})
 			callHi := map[string]int64{}
 			cids := map[string]int{}
 			tns := map[string]int{}
@@ -237,6 +250,8 @@ func init() {
 			sharedTags := map[string]string{"who": "all"}
 			sharedBucket := rep.AllocateHistogram("shared.hist", sharedTags, tally.ValueBuckets{1, 2}).ValueBucket(1, 2)
 			sharedWant := map[string]string{"who": "all", "bucketid": "0001", "bucket": renderValueBound(1, prec) + "-" + renderValueBound(2, prec)}
+			sharedDBucket := rep.AllocateHistogram("shared.dhist", sharedTags, tally.DurationBuckets{time.Second, 2 * time.Second}).DurationBucket(time.Second, 2*time.Second)
+			sharedDWant := map[string]string{"who": "all", "bucketid": "0001", "bucket": "1s-2s"}
 			var bucketSeqs []M
 			var bsmu sync.Mutex
 			startAll := make(chan struct{})
@@ -251,6 +266,7 @@ func init() {
 					<-startAll // all goroutines hit the shared handle at the same time
 					for i := 0; i < 150; i++ {
 						report(t, "bucket", sharedBucket, "shared.hist", sharedWant, int64(1000000*(g+1)+i), 0)
+						report(t, "bucket", sharedDBucket, "shared.dhist", sharedDWant, int64(1000000*(g+1)+i), 0)
 					}
 					for left > 0 {
 						name := c13Names[grng.Intn(len(c13Names))] + fmt.Sprintf(".%d", g) // a name belongs to one goroutine
@@ -351,8 +367,8 @@ func init() {
 			closeIt := func() {
 				log(M{"e": "call", "t": "main", "op": "close"})
 				cerr := rep.Close()
-				// everything sent before Close returned is already queued at the sinks (loopback sends are synchronous)
-				time.Sleep(3 * time.Millisecond)
+				// wait for the datagrams the sender is known to have emitted (loopback delivery may lag on a busy machine)
+				waitDatagrams(cols[dead:], int(emitted.Load()), 2*time.Second)
 				logEmits(cols, compact, common, constructedLo, callHi, cids, &mu, log)
 				alive := reporterGoroutinesAlive()
 				log(M{"e": "ret", "t": "main", "op": "close", "err": cerr != nil, "alive": alive && false})
@@ -369,8 +385,10 @@ func init() {
 			err2 := rep.Close()
 			log(M{"e": "call", "t": "main2", "op": "close"})
 			log(M{"e": "ret", "t": "main2", "op": "close", "err": err2 != nil, "alive": false})
-			time.Sleep(15 * time.Millisecond)
+			time.Sleep(5 * time.Millisecond)
+			waitDatagrams(cols[dead:], int(emitted.Load()), time.Second)
 			logEmits(cols, compact, common, constructedLo, callHi, cids, &mu, log)
+			tally.VerifSetHook(nil, nil)
 			log(M{"e": "end", "pending": int(m3.VerifStateOf(rep).Pending), "qlen": 0, "done": true})
 			for _, c := range cols {
 				c.close()
@@ -388,6 +406,31 @@ func init() {
 		tr.Close()
 		writeMeta(cm.out, M{"cases": ncases, "execs": ncases, "events": tr.N, "evals": evals, "distinct": len(distinct), "samples": samples})
 	})
+}
+
+// waitDatagrams waits until every collector has seen n datagrams in total (since its creation) or the timeout passes
+func waitDatagrams(cols []*sinkCollector, n int, timeout time.Duration) {
+	deadline := time.Now().Add(timeout)
+	for time.Now().Before(deadline) {
+		ok := true
+		for _, c := range cols {
+			ack := make(chan struct{})
+			select {
+			case c.sync <- ack:
+				<-ack
+			case <-c.done:
+			}
+			c.mu.Lock()
+			if c.total < n {
+				ok = false
+			}
+			c.mu.Unlock()
+		}
+		if ok {
+			return
+		}
+		time.Sleep(200 * time.Microsecond)
+	}
 }
 
 func renderValueBound(v float64, prec int) string {
